@@ -134,6 +134,7 @@ SPEC = {
         "TCP: bytes written before an orderly FIN are delivered; after RST any prefix of the written frames may have been delivered (driver tries every prefix)",
         "wall-clock promptness is measured by the tie against a generous bound, not proved",
         "the pool machine is tied through the connection ids observed at the mock for one-connection pools (shards = 0): the recorded a/g/b events, with PProcess inserted by pool_labels before the next replacement (never observed itself), must be a run; a non-run is a diff",
+        "non-idempotent requests the mock never saw must fail with a root cause of a connection that broke in the case (model run), broken.ChannelError or pool (C10_root_cause)",
         "accept_obs (proved sound) is evaluated before ok except in corr/short/garb cases where the mock mis-framed the stream and the body is justified by the model's frame-aligned reader",
     ],
 }
